@@ -1,5 +1,7 @@
 import MockeryModel.Gen.Data
 import MockeryLemmas.Types
+import MockeryModel.Generated.TypeSwitchFacts
+import MockeryModel.Go.TypeSwitchText
 /-!
 # C14 — Data handed to custom templates describes the interfaces faithfully
 
@@ -92,5 +94,18 @@ example :
     typeString (fun p => if p == "net/http" then "http0" else p)
       (.map (.basic "string") (.slice (.named "net/http" "http" "Request" .defined [] false false))) =
       "map[string][]http0.Request" := by decide
+
+/-- the type switches the model's walks over the type AST were written against (`populateImportsHelper`: which
+children of every type constructor are searched for imports, `populateImportNamedType`, `nillable`,
+`varNameForType`) are the current source's, case by case and in source order -/
+theorem type_switches_transcribed :
+    Generated.populateImportsCases = Go.SwitchText.expectedPopulateImportsCases ∧
+    Generated.populateImportsCasesAfter = Go.SwitchText.expectedPopulateImportsCasesAfter ∧
+    Generated.populateImportNamedTypeBody = Go.SwitchText.expectedPopulateImportNamedTypeBody ∧
+    Generated.nillableCases = Go.SwitchText.expectedNillableCases ∧
+    Generated.nillableCasesAfter = Go.SwitchText.expectedNillableCasesAfter ∧
+    Generated.varNameForTypeCases = Go.SwitchText.expectedVarNameForTypeCases ∧
+    Generated.varNameForTypeCasesAfter = Go.SwitchText.expectedVarNameForTypeCasesAfter := by
+  exact ⟨rfl, rfl, rfl, rfl, rfl, rfl, rfl⟩
 
 end Mockery.C14
